@@ -47,7 +47,31 @@ class Solver:
             return old_conv(e, env)
         conv.conv = conv_with_eps
         conv.sym = sym_for
-        se = SymExec(self.unit, conv, inline={self.cls + "::" + n for n in inline},
+        # besides the requested ones, every loop-free helper of the class that calls nothing of the class itself (a leaf
+        # helper such as gb, or one extracted by a refactoring) is inlined, so that extracting / inlining small helpers
+        # does not change what is analysed
+        auto = set()
+        opq = set((opaque or {}).keys())
+        for m in self.unit.methods_of(self.cls):
+            if not m.get("body") or m.get("ctor") or m.get("dtor") or m["name"] in opq or m["name"] in inline:
+                continue
+            loops = any(x.get("k") in ("For", "While", "Do", "ForRange") for x in C.walk_stmt(m["body"]))
+            calls_own = False
+            for st in C.walk_stmt(m["body"]):
+                exprs = [d["init"] for d in st["d"] if d.get("init") is not None] if st.get("k") == "Decl" else \
+                    ([st] if st.get("k") not in ("Block", "If", "For", "While", "Do", "ForRange", "Switch") else [])
+                if st.get("k") == "Return" and st.get("x") is not None:
+                    exprs = [st["x"]]
+                if st.get("k") == "If":
+                    exprs = [st["c"]]
+                for ex in exprs:
+                    for x in C.walk(ex):
+                        if x.get("k") == "Call" and (x.get("fn") or "").startswith(self.cls + "::"):
+                            calls_own = True
+            if not loops and not calls_own:
+                auto.add(m["name"])
+        self.auto_inlined = sorted(auto)
+        se = SymExec(self.unit, conv, inline={self.cls + "::" + n for n in tuple(inline) + tuple(auto)},
                      cls_consts=self.consts, facts=[(sp.Gt(gamma, 1), True)],
                      opaque={self.cls + "::" + k: v for k, v in (opaque or {}).items()})
         return se
